@@ -619,6 +619,11 @@ func (t *Termer) load(addr ssa.Value) string {
 	}
 	root, fpath := allocRoot(addr)
 	if root != nil && !escapesBeyondClosures(root) {
+		if len(fpath) == 0 && t.curLoad != nil && root.Parent() == t.curLoad.Parent() {
+			if v := reachingStore(root, t.curLoad); v != nil {
+				return t.T(v)
+			}
+		}
 		vals := t.storedAt(root, fpath)
 		if len(vals) == 1 && vals[0] == "partial" {
 			// struct built field by field: render as a composite
@@ -1218,4 +1223,52 @@ func equivLoad(load *ssa.UnOp) *ssa.UnOp {
 		}
 	})
 	return best
+}
+
+
+// reachingStore: for a local cell that does not escape, the value of the one
+// direct store that reaches the load on every path (it dominates the load and
+// no other direct store to the cell lies between them); nil otherwise.
+func reachingStore(root *ssa.Alloc, load ssa.Instruction) ssa.Value {
+	refs := root.Referrers()
+	if refs == nil {
+		return nil
+	}
+	var stores []*ssa.Store
+	for _, r := range *refs {
+		switch x := r.(type) {
+		case *ssa.Store:
+			if x.Addr == ssa.Value(root) {
+				stores = append(stores, x)
+			}
+		case *ssa.UnOp, *ssa.DebugRef:
+		default:
+			return nil // address used otherwise (field/index address, call argument, closure)
+		}
+	}
+	var best *ssa.Store
+	for _, s := range stores {
+		if !InstrDominates(s, load) {
+			continue
+		}
+		if best == nil || InstrDominates(best, s) {
+			best = s
+		}
+	}
+	if best == nil {
+		return nil
+	}
+	for _, s := range stores {
+		if s == best {
+			continue
+		}
+		if instrReaches(best, s) && instrReaches(s, load) {
+			// another store may intervene; fine only if it cannot lie after best on a path to load
+			if InstrDominates(s, best) && !instrReaches(best, s) {
+				continue
+			}
+			return nil
+		}
+	}
+	return best.Val
 }
